@@ -570,7 +570,7 @@ func (e *BitEval) binop(x *ssa.BinOp, w int, signed bool) []Alt {
 				}
 				return out
 			}
-			return bvTop(w)
+			return bvApply(x.Op, a, b, w, signed)
 		})
 	case token.EQL, token.NEQ:
 		// (x & m) == m  or  == 0 for a single-bit mask: the bit itself
@@ -885,6 +885,9 @@ func bvApply(op token.Token, a, b BV, w int, signed bool) BV {
 				return bw(bitOr)
 			}
 		}
+		if op == token.MUL && oka && !okb && ka != 0 && ka&(ka-1) == 0 {
+			return bvApply(op, b, a, w, signed)
+		}
 		if op == token.MUL && okb && kb != 0 && kb&(kb-1) == 0 {
 			sh := 0
 			for kb>>uint(sh) != 1 {
@@ -897,6 +900,33 @@ func bvApply(op token.Token, a, b BV, w int, signed bool) BV {
 				}
 			}
 			return out
+		}
+	case token.REM, token.QUO:
+		// unsigned x % 2^k keeps the low k bits, x / 2^k drops them
+		kb, okb := b.Const()
+		if okb && !signed && kb != 0 && kb&(kb-1) == 0 {
+			sh := 0
+			for kb>>uint(sh) != 1 {
+				sh++
+			}
+			out := make(BV, w)
+			for i := 0; i < w; i++ {
+				out[i] = bit{K: b0}
+				if op == token.REM && i < sh {
+					out[i] = a[i]
+				}
+				if op == token.QUO && i+sh < w {
+					out[i] = a[i+sh]
+				}
+			}
+			return out
+		}
+		ka, oka := a.Const()
+		if oka && okb && kb != 0 && !signed {
+			if op == token.REM {
+				return bvConst(ka%kb, w)
+			}
+			return bvConst(ka/kb, w)
 		}
 	}
 	return bvTop(w)
